@@ -1452,7 +1452,7 @@ class REParser(Parser, ABC):
             parse_value: Callable[[str], int] = parse_value,
             error_status: bool = False,
     ) -> Generator[HandHistory, None, int]:
-        ss = findall(self.HAND, s)
+        ss = findall(self.HAND, s.replace('\r\n', '\n') + '\n\n\n')
 
         for s in ss:
             try:
